@@ -27,7 +27,7 @@ def run_cases(b, cases, workdir):
         s.path(ctx.helper).argv([b"prog", b"x"]).envp([b"A=1"]).add("ret", -1, 2).add("snap", 0)
         for label, chain, selfname, items, unread in batches[i]:
             ini = b'[snoopy]\nmessage_format = "%{cmdline}"\noutput = file:' + ctx.log + b'\nfilter_chain = "exclude_spawns_of:' + ",".join(items).encode() + b'"\n'
-            s.add("emit", "item:" + label).add("ini", drv.hx(ini)).add("name", drv.hx(chain[-1].encode()))
+            s.add("emit", "item:" + label).add("ini", drv.hx(ini)).add("name", drv.hx(chain[-1].encode()) or "-")
             # positions count from the parent (1) to the top (len(chain)); with unread = u > 0 the ancestors at positions >= u stay root-owned,
             # the ones below u and the caller itself run as uid 4242 (dumpable again after the uid switch): under hidepid=2 the caller can then
             # read exactly the positions below u
@@ -39,7 +39,7 @@ def run_cases(b, cases, workdir):
                     for cmd_ in drop_priv:
                         s.add(cmd_)
                     switched = True
-                s.add("name", drv.hx(chain[pos - 1].encode()))
+                s.add("name", drv.hx(chain[pos - 1].encode()) or "-")
             # half of the cases: an earlier call of the same process saw a DIFFERENT ancestry (the parent carried another name, one that flips the
             # verdict); the parent then takes its real name and the measured call must decide afresh
             hist = sum(label.encode()) % 2 == 1 and not unread
@@ -55,7 +55,7 @@ def run_cases(b, cases, workdir):
             if sum(label.encode()) % 3 == 0:
                 s.add("stdin", "closed")                 # callers without descriptor 0: what the filter opens gets number 0
             if alt:
-                s.add("quiet", 1).call("execve", "earlier").add("quiet", 0).add("drain", "earlier:" + label).add("renameparent", drv.hx(chain[0].encode()))
+                s.add("quiet", 1).call("execve", "earlier").add("quiet", 0).add("drain", "earlier:" + label).add("renameparent", drv.hx(chain[0].encode()) or "-")
             s.call("execve", label).add("endfork")
             for _ in chain[:-1]:
                 s.add("endfork")
@@ -142,6 +142,12 @@ def run(tier, seed, replay=None):
     for chain in ([X], ["zz", X], [X, "zz"], ["zz", X, "cron"], ["sshd"]):
         for lst in ([X + "p"], [X + "pqrstuvwxyz", "nomatch"], ["nomatch", X + "p", ""], [X[:14]], [X[:14], X + "p"], [X], [X + "p", X]):
             hs.append(dict(chain=chain, self="zz", list=lst, unread=0, drop=any(x in set(lst) - {""} for x in chain)))
+    # an ancestor without a name (prctl(PR_SET_NAME, "")): its stat line cannot be parsed, which the filter treats like an unreadable process --
+    # the walk ends there: matches below it still drop, what lies above it is not seen
+    for chain in (["", "sshd"], ["sshd", ""], ["zz", "", "sshd"], ["zz", "sshd", ""], [""], ["cron", "zz", ""]):
+        for lst in (["sshd"], ["nomatch", "sshd", ""], ["zz"]):
+            cut = chain.index("")
+            hs.append(dict(chain=chain, self="zz", list=lst, unread=0, drop=any(x in set(lst) - {""} for x in chain[:cut])))
     cases, meta = [], {}
     for i, h in enumerate(hs):
         lab = "s%d" % i
